@@ -107,7 +107,7 @@ structure Onto where
   version : Nat × Nat × Nat := (0, 0, 0)
   categories : List Nat := []
   modifier : List Nat := []
-deriving Repr
+deriving Repr, DecidableEq
 
 namespace Onto
 def recs (o : Onto) : Kind → List Rec
